@@ -76,7 +76,7 @@ extern "C" {
  */
 static const char *parse_integer(const char *buf, size_t len, uint64_t *value, int *status)
 {
-    uint64_t x0, x = 0;
+    uint64_t d, x = 0;
     const char *k, *end = buf + len;
     int sign, status_;
 
@@ -91,12 +91,13 @@ static const char *parse_integer(const char *buf, size_t len, uint64_t *value, i
     sign = *buf == '-';
     buf += sign;
     while (buf != end && *buf >= '0' && *buf <= '9') {
-        x0 = x;
-        x = x * 10 + (uint64_t)(*buf - '0');
-        if (x0 > x) {
+        d = (uint64_t)(*buf - '0');
+        /* Test before multiplying: `x * 10 + d` can wrap to a larger value. */
+        if (x > (UINT64_MAX - d) / 10) {
             *status = sign ? PARSE_INTEGER_UNDERFLOW : PARSE_INTEGER_OVERFLOW;
             return 0;
         }
+        x = x * 10 + d;
         ++buf;
     }
     if (buf == k) {
